@@ -82,7 +82,13 @@ def extract(sources: core.Sources) -> Shape:
     i1, i2 = body.index(sh.loop1), body.index(sh.loop2)
     pre, mid, post = body[:i1], body[i1 + 1:i2], body[i2 + 1:]
     zero_inits, list_inits = [], []
+    dict_inits: List[str] = []
     for s in pre:
+        if isinstance(s, ast.Assign) and len(s.targets) == 1 and isinstance(s.targets[0], ast.Name) and (
+                (isinstance(s.value, ast.Dict) and not s.value.keys) or
+                (isinstance(s.value, ast.Call) and isinstance(s.value.func, ast.Name) and s.value.func.id in ("dict", "set", "OrderedDict") and not s.value.args)):
+            dict_inits.append(s.targets[0].id)
+            continue
         if isinstance(s, ast.Assign) and len(s.targets) == 1 and isinstance(s.targets[0], ast.Name):
             if isinstance(s.value, ast.Constant) and s.value.value == 0:
                 zero_inits.append(s.targets[0].id)
@@ -104,6 +110,17 @@ def extract(sources: core.Sources) -> Shape:
                 continue
         sh.problems.append((f"statement `{core.src(s)[:60]}` between the passes is not modelled", s))
     sh.side = list_inits
+    # a pass that iterates a dict/set built from the cells loses order and multiplicity
+    for loop in (sh.loop1, sh.loop2):
+        it = loop.iter
+        base = it.func.value if isinstance(it, ast.Call) and isinstance(it.func, ast.Attribute) and it.func.attr in ("items", "keys", "values") else it
+        if isinstance(base, ast.Name) and base.id in dict_inits:
+            keyed_by_cell = any(
+                (isinstance(n, ast.Assign) and any(isinstance(t, ast.Subscript) and isinstance(t.value, ast.Name) and t.value.id == base.id for t in n.targets)) or
+                (isinstance(n, ast.Call) and isinstance(n.func, ast.Attribute) and isinstance(n.func.value, ast.Name) and n.func.value.id == base.id and n.func.attr in ("add", "setdefault", "update"))
+                for b in sh.loop1.body for n in ast.walk(b))
+            if keyed_by_cell:
+                sh.reordered = (core.src(it), loop)
     rets = [s for s in post if isinstance(s, ast.Return)]
     if len(rets) == 1 and len(post) == 1:
         sh.ret = rets[0]
